@@ -232,7 +232,7 @@ func TestInstanceRingHistoryRapid(t *testing.T) {
 						if cur[q.Inst].ReadOnlyUpdatedTimestamp > 0 && rapid.Bool().Draw(rt, "anchorRO") {
 							anchor = cur[q.Inst].ReadOnlyUpdatedTimestamp
 						}
-						q.NowOff = int(anchor+int64(rapid.IntRange(-2, 2).Draw(rt, "anchorDelta"))+int64(q.LbSec)-base.Unix())
+						q.NowOff = int(anchor + int64(rapid.IntRange(-2, 2).Draw(rt, "anchorDelta")) + int64(q.LbSec) - base.Unix())
 						vx.Class("lookback_window_anchored", 1)
 					}
 					if rapid.IntRange(0, 9).Draw(rt, "ghost") == 0 {
